@@ -342,3 +342,46 @@ Proof. vm_compute. repeat split; reflexivity. Qed.
 Example C01_fine_grid_nonvacuous :
   NumFmt.parse32 1234567 (-6) = (10356299, -23)%Z /\ NumFmt.fmt7 10356299 (-23) = (1234567, -6)%Z.
 Proof. vm_compute. split; reflexivity. Qed.
+
+(* ==================================================================================
+   H_num_stable, the covered regions (Proofs/NumFmtRegions.v is generated: the fine-grid argument
+   above instantiated, with the constants of the cell, for each of 73 (decade, binade) cells;
+   Proofs/NumFmtTable.v).  [covered D q] holds for the seven-digit decimals D*10^q with
+   1e-12 <= value < 1e6 in every cell where binary32 is finer than seven decimal digits.
+   NOT covered, i.e. still assumed by H_num_stable:
+     - values in [1e6, 1e9) (decimal exponent q >= 0: other sign pattern of the definitions)
+       and below 1e-12;
+     - the coarse cells other than [2^-10,1e-3): [2^-20,1e-6), [2^-30,1e-9), [2^-40,1e-12)
+       (the proved coarse lemma is the template);
+     - region boundaries: the first decimal of each decade below 1 (10^d itself, d < 0, whose
+       float may fall into the decade below), and the last few decimals of a binade whose
+       binary64 image lies within 2^-25 (relative) of the next power of two;
+     - the link between NumFmt.norm and the abstract fmt7/parse32 of Base/Num.v.
+   ================================================================================== *)
+From PC Require Proofs.NumFmtRegions Proofs.NumFmtTable.
+
+Theorem C01_fine_grid_covered_partial : forall D q, NumFmtRegions.covered D q = true ->
+  let '(M, E) := NumFmt.parse32 D q in NumFmt.fmt7 M E = (D, q).
+Proof. exact NumFmtRegions.fine_grid_covered. Qed.
+Print Assumptions C01_fine_grid_covered_partial.
+
+(* zero, every fine cell of the table, and the coarse binade [2^-10, 10^-3) *)
+Theorem C01_num_stable_regions_partial : forall m e, NumFmtTable.in_covered_region m e ->
+  NumFmt.norm (fst (NumFmt.norm m e)) (snd (NumFmt.norm m e)) = NumFmt.norm m e.
+Proof. exact NumFmtTable.num_stable_regions. Qed.
+Print Assumptions C01_num_stable_regions_partial.
+
+(* the sign is copied by both operations: the same for negative numbers *)
+Theorem C01_num_stable_regions_signed_partial : forall s m e, NumFmtTable.in_covered_region m e ->
+  NumFmtTable.snorm (NumFmtTable.snorm (s, m, e)) = NumFmtTable.snorm (s, m, e).
+Proof. exact NumFmtTable.num_stable_regions_signed. Qed.
+Print Assumptions C01_num_stable_regions_signed_partial.
+
+(* the table at work: 1234.567, 0.01234567 and 5e-12 are in fine cells; 0.0009765629 (coarse
+   binade), 0.001 (first decimal of a decade below 1) and 1234567 (>= 1e6) are not *)
+Example C01_covered_nonvacuous :
+  NumFmtRegions.covered 1234567 (-3) = true /\ NumFmtRegions.covered 1234567 (-8) = true /\
+  NumFmtRegions.covered 5000000 (-18) = true /\
+  NumFmtRegions.covered 9765629 (-10) = false /\ NumFmtRegions.covered 1000000 (-9) = false /\
+  NumFmtRegions.covered 1234567 0 = false.
+Proof. vm_compute. repeat split; reflexivity. Qed.
